@@ -464,7 +464,7 @@ impl Scenario for ValidatorScn {
     }
 }
 
-const QUERIES: [(&str, Rtype, &str); 37] = [
+const QUERIES: [(&str, Rtype, &str); 40] = [
     ("www.zone.tld.", Rtype::A, "positive"),
     ("www.zone.tld.", Rtype::TXT, "positive"),
     ("zone.tld.", Rtype::SOA, "positive"),
@@ -502,6 +502,9 @@ const QUERIES: [(&str, Rtype, &str); 37] = [
     // the signed data at the end does not make the answer secure.
     ("www.dn.unsigned.tld.", Rtype::A, "insecure-dname"),
     ("nope.evil.tld.", Rtype::A, "nxdomain"),
+    ("www.island.tld.", Rtype::A, "island"),
+    ("txt.island.tld.", Rtype::TXT, "island"),
+    ("nope.island.tld.", Rtype::A, "island-nxdomain"),
     ("plain.tld.", Rtype::TXT, "positive-tld"),
     ("other.", Rtype::TXT, "positive-root"),
 ];
@@ -532,6 +535,17 @@ async fn run(_tier: Tier) {
     }
     if ta_kind == 1 || ta_kind == 2 {
         sim::stat("probe.trust_anchor_given_as_ds");
+    }
+    // Half of the runs a second, nested anchor: the key of `island.tld.`, a
+    // signed zone whose delegation has no DS. With it the island's data is
+    // secure (the innermost anchor counts); without it, insecure.
+    let island_anchor = sim::chance("cfg.island_anchor", 1, 2);
+    if island_anchor {
+        sim::stat("probe.nested_trust_anchor");
+        if let Err(e) = ta.add_u8(w.island_anchor_text.as_bytes()) {
+            sim::harness_error(format!("island trust anchor: {:?}", e));
+            return;
+        }
     }
     // Tuning knobs per run: tiny caches make the miss / eviction paths run,
     // short validities make cached nodes expire between queries.
@@ -627,6 +641,9 @@ async fn run(_tier: Tier) {
         let (qname, qtype, class) = QUERIES[sim::draw("query", QUERIES.len() as u64) as usize];
         // The response handed to validate_msg.
         let mut r = w.resolve(qname, qtype);
+        if r.island && !island_anchor {
+            r.insecure = true;
+        }
         let final_harm = if adversarial {
             *sim::pick(
                 "harm.final",
@@ -815,6 +832,9 @@ async fn run(_tier: Tier) {
         for _ in 0..n_comp {
             let (cq, ct, cc) = QUERIES[sim::draw("companions.query", QUERIES.len() as u64) as usize];
             let mut cr = w.resolve(cq, ct);
+            if cr.island && !island_anchor {
+                cr.insecure = true;
+            }
             legit_transform(&mut cr);
             let mut mb = MessageBuilder::new_vec();
             mb.header_mut().set_rd(true);
